@@ -26,6 +26,7 @@ import (
 	"github.com/pbenner/autodiff/algorithm/blahut"
 	"github.com/pbenner/autodiff/algorithm/eigensystem"
 	"github.com/pbenner/autodiff/algorithm/gradientDescent"
+	"github.com/pbenner/autodiff/algorithm/householderBidiagonalization"
 	"github.com/pbenner/autodiff/algorithm/lineSearch"
 	"github.com/pbenner/autodiff/algorithm/msqrt"
 	"github.com/pbenner/autodiff/algorithm/msqrtInv"
@@ -63,6 +64,7 @@ type TCase struct {
 	Obj     string    `json:"obj,omitempty"` // objective / oracle name (optimisers)
 	Cap     int       `json:"cap"`           // explicit cap handed to the routine (-1: none exists)
 	P       []float64 `json:"p,omitempty"`   // step sizes, eta, ...
+	Flags   []string  `json:"flags,omitempty"` // structural facts about the input, computed by the parent before the run (narrow finding matching)
 }
 type TRes struct {
 	Case    TCase   `json:"case"`
@@ -157,6 +159,198 @@ func matFamilies(n int, rng *Rng) map[string][]float64 {
 	return fam
 }
 
+// zeroFamilies: exact zeros at EVERY position of the diagonal (svd) / sub-diagonal (QR) of
+// bidiagonal, triangular, Hessenberg and tridiagonal inputs.  Family names carry the position
+// ("@k") so that a hang is attributed to one position.  kind "svd" families go to svd only,
+// "qr" families to qr/eig (+ qrsym/eigsym when symmetric).
+type zfam struct {
+	name, kind string
+	mat        []float64
+}
+
+func zeroFamilies(n int, rng *Rng) []zfam {
+	var out []zfam
+	z := func() []float64 { return make([]float64, n*n) }
+	bidiag := func(v int) []float64 {
+		m := z()
+		for i := 0; i < n; i++ {
+			m[i*n+i] = float64(i + 2 + v)
+			if i+1 < n {
+				m[i*n+i+1] = float64(2*i + 1 + v)
+			}
+		}
+		return m
+	}
+	upper := func() []float64 {
+		m := z()
+		for i := 0; i < n; i++ {
+			for j := i; j < n; j++ {
+				m[i*n+j] = float64(1 + (i*3+j*5)%7)
+			}
+		}
+		return m
+	}
+	full := func() []float64 {
+		m := z()
+		for i := 0; i < n; i++ {
+			for j := 0; j < n; j++ {
+				m[i*n+j] = float64(1 + (i*i+3*j+i*j)%7)
+			}
+		}
+		return m
+	}
+	for k := 0; k < n; k++ {
+		// already bidiagonal, one exact zero on the diagonal at position k (two value sets)
+		for v := 0; v < 2; v++ {
+			m := bidiag(3 * v)
+			m[k*n+k] = 0
+			out = append(out, zfam{fmt.Sprintf("bidiag%d-zero@%d", v, k), "svd", m})
+		}
+		// bidiagonal with unit super-diagonal and a zero at k: nilpotent-like block structure
+		m := z()
+		for i := 0; i < n; i++ {
+			m[i*n+i] = 1
+			if i+1 < n {
+				m[i*n+i+1] = 1
+			}
+		}
+		m[k*n+k] = 0
+		out = append(out, zfam{fmt.Sprintf("unit-bidiag-zero@%d", k), "svd", m})
+		// upper triangular with a zero diagonal entry at k
+		m = upper()
+		m[k*n+k] = 0
+		out = append(out, zfam{fmt.Sprintf("triu-zero@%d", k), "svd", m})
+		// rank deficient by a zero column / a zero row at k
+		m = full()
+		for i := 0; i < n; i++ {
+			m[i*n+k] = 0
+		}
+		out = append(out, zfam{fmt.Sprintf("zero-col@%d", k), "svd", m})
+		m = full()
+		for j := 0; j < n; j++ {
+			m[k*n+j] = 0
+		}
+		out = append(out, zfam{fmt.Sprintf("zero-row@%d", k), "svd", m})
+		// two zeros on the diagonal: k and the last position
+		if k < n-1 {
+			m = bidiag(0)
+			m[k*n+k] = 0
+			m[n*n-1] = 0
+			out = append(out, zfam{fmt.Sprintf("bidiag0-zero@%d+last", k), "svd", m})
+		}
+	}
+	// the integrator's witness of F-SVD-ZERODIAG-HANG, embedded as trailing block
+	if n >= 3 {
+		m := z()
+		for i := 0; i < n-3; i++ {
+			m[i*n+i] = float64(i + 5)
+		}
+		o := n - 3
+		w := []float64{3, 1, 0, 0, 2, 4, 0, 0, 0}
+		for i := 0; i < 3; i++ {
+			for j := 0; j < 3; j++ {
+				m[(o+i)*n+o+j] = w[i*3+j]
+			}
+		}
+		out = append(out, zfam{"witness-3140", "svd", m})
+	}
+	for k := 0; k+1 < n; k++ {
+		// upper Hessenberg, exact zero on the sub-diagonal at (k+1, k)
+		m := z()
+		for i := 0; i < n; i++ {
+			for j := 0; j < n; j++ {
+				if i <= j+1 {
+					m[i*n+j] = float64(1 + (2*i+3*j+i*j)%5)
+				}
+			}
+		}
+		m[(k+1)*n+k] = 0
+		out = append(out, zfam{fmt.Sprintf("hess-zero@%d", k), "qr", m})
+		// symmetric tridiagonal with distinct diagonal, exact zero off-diagonal pair at k
+		m = z()
+		for i := 0; i < n; i++ {
+			m[i*n+i] = float64(2*i + 1)
+			if i+1 < n {
+				m[i*n+i+1] = float64(i + 1)
+				m[(i+1)*n+i] = float64(i + 1)
+			}
+		}
+		m[(k+1)*n+k] = 0
+		m[k*n+k+1] = 0
+		out = append(out, zfam{fmt.Sprintf("tridiag-zero@%d", k), "qr", m})
+		// symmetric, full, but block diagonal (zero coupling between rows <= k and > k)
+		m = z()
+		for i := 0; i < n; i++ {
+			for j := 0; j <= i; j++ {
+				if (i <= k) == (j <= k) {
+					v := float64(1 + (i+2*j+i*j)%4)
+					if i == j {
+						v += float64(3 * i)
+					}
+					m[i*n+j] = v
+					m[j*n+i] = v
+				}
+			}
+		}
+		out = append(out, zfam{fmt.Sprintf("sym-block-zero@%d", k), "qr", m})
+		// lower sub-diagonal only (nilpotent shift with one link removed)
+		m = z()
+		for i := 0; i+1 < n; i++ {
+			m[(i+1)*n+i] = 1
+		}
+		m[(k+1)*n+k] = 0
+		out = append(out, zfam{fmt.Sprintf("lower-shift-zero@%d", k), "qr", m})
+	}
+	return out
+}
+
+// svdFlags: structural facts about the bidiagonal form of the input (computed with the library's
+// own householderBidiagonalization in the parent: a finite counting loop), used to match
+// F-SVD-ZERODIAG-HANG narrowly: the ONLY exactly-zero diagonal entry is the last one.
+func svdFlags(c TCase) (flags []string) {
+	defer func() {
+		if r := recover(); r != nil {
+			flags = []string{"bidiag-failed"}
+		}
+	}()
+	n := c.N
+	if n < 2 || len(c.Mat) != n*n {
+		return nil
+	}
+	for _, v := range c.Mat {
+		if math.IsNaN(v) || math.IsInf(v, 0) {
+			return []string{"non-finite"}
+		}
+	}
+	if c.Family == "nan-entry" || c.Family == "inf-entry" {
+		return []string{"non-finite"}
+	}
+	v := make([]float64, len(c.Mat))
+	copy(v, c.Mat)
+	H, _, _, err := householderBidiagonalization.Run(ad.NewDenseFloat64Matrix(v, n, n))
+	if err != nil {
+		return []string{"bidiag-failed"}
+	}
+	last := H.ConstAt(n-1, n-1).GetFloat64() == 0.0
+	other := 0
+	for i := 0; i+1 < n; i++ {
+		if H.ConstAt(i, i).GetFloat64() == 0.0 {
+			other++
+		}
+	}
+	switch {
+	case last && other == 0:
+		flags = append(flags, "bidiag-zero-last-only")
+	case last:
+		flags = append(flags, "bidiag-zero-last-and-other")
+	case other > 0:
+		flags = append(flags, "bidiag-zero-not-last")
+	default:
+		flags = append(flags, "bidiag-diag-nonzero")
+	}
+	return flags
+}
+
 func isSym(m []float64, n int) bool {
 	for i := 0; i < n; i++ {
 		for j := 0; j < i; j++ {
@@ -195,6 +389,20 @@ func termCases(opts Opts) []TCase {
 			if isSym(m, n) {
 				add(TCase{Routine: "qrsym", Family: f, N: n, Mat: m, Cap: -1})
 				add(TCase{Routine: "eigsym", Family: f, N: n, Mat: m, Cap: -1})
+			}
+		}
+		if n >= 2 {
+			for _, zf := range zeroFamilies(n, rng.Split()) {
+				if zf.kind == "svd" {
+					add(TCase{Routine: "svd", Family: zf.name, N: n, Mat: zf.mat, Cap: -1})
+					continue
+				}
+				add(TCase{Routine: "qr", Family: zf.name, N: n, Mat: zf.mat, Cap: -1})
+				add(TCase{Routine: "eig", Family: zf.name, N: n, Mat: zf.mat, Cap: -1})
+				if isSym(zf.mat, n) {
+					add(TCase{Routine: "qrsym", Family: zf.name, N: n, Mat: zf.mat, Cap: -1})
+					add(TCase{Routine: "eigsym", Family: zf.name, N: n, Mat: zf.mat, Cap: -1})
+				}
 			}
 		}
 		// in-place transposition of a view (cycle-following loop)
@@ -245,6 +453,11 @@ func termCases(opts Opts) []TCase {
 	for _, st := range []int{0, 1, 10} {
 		add(TCase{Routine: "blahut", Family: "uniform", N: 3, Cap: st})
 		add(TCase{Routine: "blahut", Family: "zero-channel", N: 3, Cap: st})
+	}
+	for i := range cs {
+		if cs[i].Routine == "svd" {
+			cs[i].Flags = svdFlags(cs[i])
+		}
 	}
 	return cs
 }
